@@ -30,7 +30,7 @@ def gen_image(rng, tier):
             files = []
             nfiles = rng.randint(0, 6)
             names = []
-            pool = ["KICK", "SNARE", "HAT", "TOM 1", "TOM 2", "BASS", "PAD#1", "FX.1", "Z9", "STR L", "STR R", "GTR-L", "GTR-R", "LEAD"]
+            pool = ["KICK", "SNARE", "HAT", "TOM 1", "TOM 2", "BASS", "PAD#1", "FX.1", "FX.WAV", "FX", "Z9", "STR L", "STR R", "GTR-L", "GTR-R", "LEAD"]
             rng.shuffle(pool)
             names = pool[:nfiles]
             for fi, n in enumerate(names):
